@@ -263,5 +263,157 @@ theorem unknown_covers_prim {E : Env} (hU : UnifyLaws E) {fuel fuel' : Nat} {uns
   rw [hq'] at h0'
   exact covers_prim_core hU hpv hw hg hwq hm0' hadm h0 h0'
 
+/-! ### every placeholder-free target: an unknown that may be null admits the null, and so do the results -/
+
+theorem unmark1_withMarks (p : Payload) (ms : List String) : (p.withMarks ms).unmark1 = p.unmark1 := by
+  unfold Payload.withMarks
+  simp only
+  split
+  · rfl
+  · rfl
+
+theorem unmark1_withMarks_val (v : Value) (ms : List String) : (v.withMarks ms).v.unmark1 = v.v.unmark1 :=
+  unmark1_withMarks _ _
+
+open Refine in
+/-- without a `NotNull` call, refining an unrefined unknown gives an unknown that may be null (or a null) -/
+theorem refine_maybe_null {t : Ty} {cs : List RefineCall} {r : Value}
+    (hcs : ∀ c ∈ cs, lenCall c = true ∧ c ≠ .notNull)
+    (h : Refine.refine ⟨t, .unk .unref⟩ cs = .ok r) :
+    (∃ rf, r.v.unmark1 = .unk rf ∧ rf.nullness ≠ .f) ∨ r.v.unmark1 = .null := by
+  unfold Refine.refine at h
+  obtain ⟨b, hb, h⟩ := Res.bind_eq_ok h
+  obtain ⟨b', hb', h⟩ := Res.bind_eq_ok h
+  obtain ⟨horig, _, _, hnull⟩ := init_unknown hb
+  have hrun := run_nullness hcs hb'
+  have horig' : b'.orig = ⟨t, .unk .unref⟩ := by rw [run_orig hb', horig]
+  have hn : b'.wip.nullness ≠ .f := by rw [hrun]; exact hnull rfl
+  unfold newValue at h
+  split at h
+  · simp at h; subst h
+    refine .inl ⟨.unref, ?_, by simp [Rfn.nullness]⟩
+    rw [unmark1_withMarks_val, horig']; rfl
+  · simp only at h
+    split at h
+    · simp at h
+    · split at h
+      · simp at h; subst h
+        exact .inr (by rw [unmark1_withMarks_val]; rfl)
+      · simp at h; subst h
+        exact .inl ⟨b'.wip, by rw [unmark1_withMarks_val]; rfl, hn⟩
+      · rename_i hf
+        exact absurd hf hn
+
+theorem prepare_maybe_null {src : Refine.ValueRange} {t : Ty} {r : Value}
+    (hd : src.definitelyNotNull = false) (h : prepareUnknownResult src t = .ok r) :
+    (∃ rf, r.v.unmark1 = .unk rf ∧ rf.nullness ≠ .f) ∨ r.v.unmark1 = .null := by
+  unfold prepareUnknownResult at h
+  simp only [hd] at h
+  simp only [Res.bind, Bool.false_eq_true, if_false] at h
+  have key : ∀ cs : List Refine.RefineCall, (∀ c ∈ cs, lenCall c = true ∧ c ≠ .notNull) →
+      Refine.refine (Value.unknown t) cs = .ok r →
+      (∃ rf, r.v.unmark1 = .unk rf ∧ rf.nullness ≠ .f) ∨ r.v.unmark1 = .null :=
+    fun cs hcs h' => refine_maybe_null hcs h'
+  split at h
+  · exact key _ (by simp [lenCall]) h
+  · exact key _ (by simp [lenCall]) h
+  · split at h
+    · exact key _ (by simp [lenCall]) h
+    · exact key _ (by simp [lenCall]) h
+  · split at h
+    · cases hlo : src.lengthLowerBound <;> simp only [hlo] at h <;> try (simp at h; done)
+      cases hhi : src.lengthUpperBound <;> simp only [hhi] at h <;> try (simp at h; done)
+      refine key _ ?_ h
+      intro c hc
+      rcases List.mem_append.mp hc with hc | hc
+      · split at hc
+        · split at hc
+          · simp at hc; subst hc; simp [lenCall]
+          · simp at hc
+        · simp at hc; subst hc; simp [lenCall]
+      · simp at hc; subst hc; simp [lenCall]
+    · simp [Value.unknown] at h
+      subst h
+      exact .inl ⟨.unref, rfl, by simp [Rfn.nullness]⟩
+
+theorem stripMarks_of_unmark1_leaf {p q : Payload} (h : p.unmark1 = q)
+    (hq : (∃ rf, q = .unk rf) ∨ q = .null) : p.stripMarks = q := by
+  rw [← Payload.stripMarks_unmark1, h]
+  rcases hq with ⟨rf, rfl⟩ | rfl <;> rfl
+
+/-- **an unknown that may be null, converted to any placeholder-free target, admits the converted null**
+(unmarked core; `unknown_covers_null` peels the marks) -/
+theorem covers_null_core {E : Env} (hU : UnifyLaws E) {fuel fuel' : Nat} {uns : Bool} {t want : Ty} {p : Plan}
+    {rf : Rfn} {r r' : Value} (hp : RegularPair ⟨t, .unk rf⟩ want) (hg : getConv E t want uns = some p)
+    (hc : Cov.admits rf .null = true)
+    (h : apply E (fuel + 1) p ⟨t, .unk rf⟩ = .ok r) (h' : apply E (fuel' + 1) p ⟨t, .null⟩ = .ok r') :
+    Covers r r' = true := by
+  have hp' : RegularPair ⟨t, .null⟩ want := ⟨by
+    have := hp.wt
+    simp only [Value.wt, Bool.and_eq_true] at this ⊢
+    exact ⟨this.1, by simp [wtP]⟩, hp.wfT, hp.noDyn⟩
+  rw [apply_null_exact hU fuel' hp' hg rfl rfl rfl] at h'
+  simp only [Res.ok.injEq] at h'
+  subst h'
+  have hty := apply_ty hU hp hg h
+  rw [apply_unknown_exact hU fuel hp hg rfl rfl] at h
+  obtain ⟨rng, hrng, h⟩ := Res.bind_eq_ok h
+  have hnn : rng.definitelyNotNull = false := by
+    simp only [Refine.range] at hrng
+    simp only [Res.ok.injEq] at hrng
+    subst hrng
+    simp only [Cov.admits] at hc
+    simp only [Refine.ValueRange.definitelyNotNull]
+    by_cases hr : rf = .unref
+    · subst hr; simp [Rfn.nullness]
+    · simp only [hr, if_false]
+      generalize rf.nullness = n at hc ⊢
+      cases n <;> first | rfl | exact absurd hc (by decide)
+  have hm := prepare_maybe_null hnn h
+  simp only [Covers, CoversG, hty, Value.null, Ty.matches_refl, Bool.true_and, Payload.stripMarks]
+  rcases hm with ⟨R, hR, hRn⟩ | hnull
+  · rw [stripMarks_of_unmark1_leaf hR (.inl ⟨R, rfl⟩)]
+    simp only [Cov.coversP, Cov.admits]
+    generalize R.nullness = n at hRn ⊢
+    cases n <;> first | rfl | exact absurd rfl hRn
+  · rw [stripMarks_of_unmark1_leaf hnull (.inr rfl)]
+    rfl
+
+/-- **Unknown / null soundness with `Covers`, every placeholder-free target, the admitted null**:
+`v` unknown (marked or not), `v'` a null of the same type (marked or not) that `v` admits: the
+result for `v` — an unknown of the target type, whatever length refinement it carries — admits
+the result for `v'`. -/
+theorem unknown_covers_null {E : Env} (hU : UnifyLaws E) {fuel fuel' : Nat} {uns : Bool} {v v' r r' : Value}
+    {want : Ty} {p : Plan} (hp : RegularPair v want) (hwt' : wtP v'.ty v'.v = true) (hty : v'.ty = v.ty)
+    (hg : getConv E v.ty want uns = some p) (hk : v.isKnown = false) (hn' : v'.isNull = true)
+    (hc : Covers v v' = true)
+    (h : apply E fuel p v = .ok r) (h' : apply E fuel' p v' = .ok r') : Covers r r' = true := by
+  obtain ⟨c, hgc, rfl⟩ := Option.map_eq_some_iff.mp hg
+  have hwv := hp.conds.wt
+  obtain ⟨f0, r0, h0, hm0, hl, _⟩ := apply_peel hwv h
+  obtain ⟨f0', r0', h0', hm0', _, hr⟩ := apply_peel hwt' h'
+  rw [hl, hr]
+  obtain ⟨rf, hrf⟩ := unmark_unknown hk
+  have hnull : v'.unmark = ⟨v.ty, .null⟩ := by
+    obtain ⟨t', q'⟩ := v'
+    simp only [Value.isNull, Payload.isNull] at hn'
+    simp only at hty
+    subst hty
+    simp only [Value.unmark]
+    cases hq : q'.unmark1 <;> simp [hq] at hn'
+    rfl
+  have hadm : Cov.admits rf .null = true := by
+    have hc' := hc
+    rw [← covers_unmark_left, ← covers_unmark_right, hrf, hnull] at hc'
+    simp only [Covers, CoversG, Bool.and_eq_true] at hc'
+    simpa [Payload.stripMarks, Cov.coversP] using hc'.2
+  rw [hrf] at h0
+  rw [hnull] at h0'
+  have hp0 : RegularPair ⟨v.ty, .unk rf⟩ want := ⟨by
+    have := hp.wt
+    simp only [Value.wt, Bool.and_eq_true] at this ⊢
+    exact ⟨this.1, by simp [wtP]⟩, hp.wfT, hp.noDyn⟩
+  exact covers_null_core hU hp0 hg hadm h0 h0'
+
 end Convert
 end CtyModel
